@@ -358,7 +358,7 @@ def model_build(run_mod, run_fn):
     return drv, ""
 
 
-def correspond(cases, outs, run_mod, run_fn, workdir, timeout=1800):
+def correspond(cases, outs, run_mod, run_fn, workdir, timeout=1800, ops_of=None):
     """-> (mismatching case ids, problems).  Cases whose driver output is
     missing or panicked are reported as mismatches too."""
     os.makedirs(workdir, exist_ok=True)
@@ -381,7 +381,7 @@ def correspond(cases, outs, run_mod, run_fn, workdir, timeout=1800):
         with open(p, "w") as f:
             for idx, c, o in shards[k]:
                 f.write("case %d\n" % idx)
-                for op in c.ops:
+                for op in (ops_of(c, o) if ops_of else c.ops):
                     f.write("op " + " ".join(tok_text(t) for t in op) + "\n")
                 for ob in o["obs"]:
                     f.write("obs " + " ".join(tok_text(t) for t in ob) + "\n")
